@@ -494,8 +494,14 @@ def _do_op(z, op):
 def child_batch(arg):
     """run cases [{id, a(hex), pw, ops, mode}] one after the other; per call: wall-clock budget (SIGALRM),
     RSS watcher, optional spin detector.  Stops early once a case tainted the process (timeout / blow-up)."""
+    import faulthandler
+    import resource
     import signal
     import threading
+    if arg.get("fault"):
+        # the Python stack at a fatal signal (abort inside a C extension, ...) for the parent to read
+        child_batch._fault = open(arg["fault"], "w")
+        faulthandler.enable(file=child_batch._fault)
     if arg.get("detect_spin", True):
         _install_spin_detector()
     main_id = threading.get_ident()
@@ -503,6 +509,8 @@ def child_batch(arg):
     rss_limit = arg.get("rss_mb", 300)
 
     def on_alarm(sig, frame):
+        if not state.get("in_op"):
+            return
         st = _sites(frame)
         for tid, fr in sys._current_frames().items():
             if tid != main_id:
@@ -510,6 +518,8 @@ def child_batch(arg):
         raise _Timeout(json.dumps(st))
 
     def on_usr1(sig, frame):
+        if not state.get("in_op"):
+            return
         raise _Blowup(json.dumps(state["sites"] or _sites(frame)))
 
     signal.signal(signal.SIGALRM, on_alarm)
@@ -540,7 +550,9 @@ def child_batch(arg):
             if z is None and op != "open":
                 break
             state["base"] = _rss_mb()
+            peak0 = resource.getrusage(resource.RUSAGE_SELF).ru_maxrss // 1024
             state["armed"] = True
+            state["in_op"] = True      # signals that arrive after the call has ended are ignored by the handlers
             t0 = time.time()
             # the budget is CPU time of this process (the machine may be busy); wall clock only as a backstop
             signal.setitimer(signal.ITIMER_PROF, budget)
@@ -562,18 +574,23 @@ def child_batch(arg):
                     signal.setitimer(signal.ITIMER_PROF, 0)
                     signal.setitimer(signal.ITIMER_REAL, 0)
                     state["armed"] = False
+                state["in_op"] = False
                 ops_out.append([op, "ok", val, round(time.time() - t0, 3)])
             except _Timeout as e:
+                state["in_op"] = False
                 ops_out.append([op, "timeout", json.loads(str(e)), round(time.time() - t0, 3)])
                 tainted = True
             except _Blowup as e:
+                state["in_op"] = False
                 ops_out.append([op, "rss", json.loads(str(e)), round(time.time() - t0, 3)])
                 tainted = True
             except SpinDetected as e:
+                state["in_op"] = False
                 ops_out.append([op, "spin", json.loads(str(e)), round(time.time() - t0, 3)])
                 # the decompressor object is left as it is (it is stuck); later calls would spin again
                 break
             except MemoryError as e:
+                state["in_op"] = False
                 tb = e.__traceback__
                 last = None
                 while tb is not None:
@@ -584,12 +601,19 @@ def child_batch(arg):
                 if op == "open":
                     z = None
             except BaseException as e:  # noqa  (SystemExit / KeyboardInterrupt from the code under test included)
+                state["in_op"] = False
                 kind = "exc" if isinstance(e, Exception) else "exit"
                 ops_out.append([op, kind, type(e).__name__, round(time.time() - t0, 3)])
                 if kind == "exit":
                     tainted = True
                 if op == "open":
                     z = None
+            # a spike the sampling watcher missed (one long allocation inside C code that was freed again):
+            # the peak of the process tells; the site is found by the parent (re-run under a low address-space limit)
+            peak1 = resource.getrusage(resource.RUSAGE_SELF).ru_maxrss // 1024
+            if not tainted and ops_out and ops_out[-1][1] in ("ok", "exc") and peak1 - max(peak0, state["base"]) > rss_limit:
+                ops_out[-1] = [op, "rss", {"sites": [], "posthoc": True, "peak_mb": peak1, "was": ops_out[-1][1:3]}, ops_out[-1][3]]
+                tainted = True
             if tainted:
                 break
         try:
@@ -640,6 +664,11 @@ def classify(op, status, detail, ops_before):
     """(kind, via) of an observed resource event, from the innermost frames of the package under test"""
     if status == "exit":
         return ("crash", "interpreter-exit")
+    if status == "child":
+        s0 = " || ".join(detail or [])
+        if "pyppmd.Ppmd7Decoder(" in s0 or "pyppmd.Ppmd8Decoder(" in s0:
+            return ("crash", "ppmd-mem-alloc-failure")
+        return ("crash", "child-" + (detail[0].split("|")[0] if detail else "no-python-frame"))
     sites = detail.get("sites", []) if isinstance(detail, dict) else list(detail or [])
     s = " || ".join(sites)
     stale = False
@@ -683,6 +712,9 @@ WHAT = {
     ("quadratic", "packpositions"): "PackInfo._read computes packpositions as sum(packsizes[:i]) for every i: quadratic in numstreams",
     ("quadratic", "bindpairs"): "Folder._read searches the whole bind-pair list for every input stream: quadratic in the number of bonds",
     ("amplify", "names-at-eof"): "read_utf16 iterates 65536 times at end of input, once per DECLARED file",
+    ("crash", "ppmd-mem-alloc-failure"): "PpmdDecompressor passes the archive's PPMd memory size (up to 4 GB, 4 bytes of coder "
+                                         "properties) unchecked to pyppmd; when that allocation fails pyppmd aborts the process "
+                                         "(double free): the interpreter does not survive",
 }
 
 
@@ -852,6 +884,18 @@ def directed_cases(rng):
                 ("quadratic", "bindpairs")))
     out.append(("41-byte archive: 2000 files, NAME record of one byte", seal(b"\x01\x05" + num(2000) + b"\x11\x01\x00\x00\x00"), None,
                 ["getnames"], ("amplify", "names-at-eof")))
+    try:
+        pa = arch.make_archive([("a.txt", b"hello world" * 10)], chain="ppmd", encoded=False)
+        pp, ph = split(pa)
+        PT = tokens_of(hdr.impl_parse(ph)[1])
+        for x in PT:
+            if x[0] == "unpack.folder.coder.props":
+                x[2] = x[2][:1] + (0xC0000000).to_bytes(4, "little") + x[2][5:]
+        out.append(("ppmd archive whose coder properties ask for 3 GiB of model memory", seal(assemble(PT), pp), None, ["extractall"],
+                    ("crash", "ppmd-mem-alloc-failure")))
+        out.append(("control: valid ppmd archive", pa, None, ["extractall", "reset", "testzip"], None))
+    except Exception:  # noqa  (codec not available)
+        pass
     # controls: benign neighbours of the triggers above; an event on one of them is never a known shape
     out.append(("control: 30 files, NAME record of one byte", seal(b"\x01\x05" + num(30) + b"\x11\x01\x00\x00\x00"), None, ["getnames"], None))
     out.append(("control: 20000 declared files", seal(b"\x01\x05" + num(20000) + b"\x00\x00"), None, ["getnames", "list"], None))
@@ -1189,19 +1233,43 @@ def check_cost_model(ctx, rep, rng, tier):
 
 
 # ------------------------------------------------------------------ running cases in sandboxed children
+def fault_sites(text):
+    """faulthandler dump -> innermost-first 'file:func|source line' for frames of the package under test"""
+    import linecache
+    import re
+    out = []
+    for fn, ln, func in re.findall(r'File "([^"]+)", line (\d+) in (\S+)', text):
+        if os.sep + "py7zr" + os.sep in fn:
+            out.append("%s:%s|%s" % (os.path.basename(fn), func, linecache.getline(fn, int(ln)).strip()[:90]))
+    return out[:12]
+
+
 def run_cases(cases, tmpdir, budget, workers=14, batch=24, detect_spin=True, rss_mb=300, mem_mb=1500):
     """cases: list of {id, a(hex), pw, ops, mode}.  Returns {id: result | {'child': status}}"""
     results = {}
     queue = [cases[i:i + batch] for i in range(0, len(cases), batch)]
+
+    import itertools
+    import threading
+    counter = itertools.count()
+    lock = threading.Lock()
 
     def one(chunk):
         out = {}
         rest = list(chunk)
         while rest:
             tmo = 20 + sum((c.get("budget", budget)) * (len(c["ops"]) + 1) for c in rest) * 0.6
+            with lock:
+                fault = os.path.join(tmpdir, "fault-%d.txt" % next(counter))
             r = run_sandboxed("harness.c05:child_batch",
-                              {"cases": rest, "budget": budget, "tmpdir": tmpdir, "rss_mb": rss_mb, "detect_spin": detect_spin},
+                              {"cases": rest, "budget": budget, "tmpdir": tmpdir, "rss_mb": rss_mb, "detect_spin": detect_spin,
+                               "fault": fault},
                               timeout=tmo, mem_mb=mem_mb)
+            if r["status"] != "ok":
+                try:
+                    r["fault"] = fault_sites(open(fault).read())
+                except OSError:
+                    r["fault"] = []
             if r["status"] == "ok":
                 for x in r["value"]:
                     out[x["id"]] = x
@@ -1443,6 +1511,23 @@ def explore(ctx, rep, rng, tier, tmpdir, events):
 
     results = run_cases(cases, tmpdir, budget, workers=14, batch=24)
 
+    # ---- spikes seen only in the peak RSS: run those cases again, alone, under a low address-space limit, so that the
+    #      allocation fails where it is made (MemoryError with a traceback)
+    posthoc = [c for c in cases if any(o[1] == "rss" and isinstance(o[2], dict) and o[2].get("posthoc")
+                                      for o in results.get(c["id"], {}).get("ops", []))]
+    if posthoc:
+        located = run_cases(posthoc[:40], tmpdir, budget, workers=8, batch=1, mem_mb=700)
+        for c in posthoc[:40]:
+            r2 = located.get(c["id"], {})
+            if any(o[1] in ("memory", "rss", "timeout") and (o[2] if not isinstance(o[2], dict) else o[2].get("sites"))
+                   for o in r2.get("ops", [])):
+                for o in r2["ops"]:
+                    if o[1] == "memory":
+                        o[1] = "rss"        # located: the allocation that made the peak
+                r2["tainted"] = True
+                results[c["id"]] = r2
+        rep.extra["posthoc_rss_spikes"] = len(posthoc)
+
     # ---- evaluate
     unknown_retry = []
     first = {}
@@ -1455,9 +1540,17 @@ def explore(ctx, rep, rng, tier, tmpdir, events):
         if r.get("child"):
             # the whole child died / hung although every call is watched: the interpreter did not survive
             rep.count((c["a"], tuple(c["ops"])), nontrivial=True)
-            key = ("crash", "child-" + r["child"])
+            sites = r.get("detail", {}).get("fault", [])
+            key = classify("?", "child", sites, []) if r["child"] == "crash" else ("crash", "child-" + r["child"])
             events[key] = events.get(key, 0) + 1
-            unknown_retry.append((c, m, key, "the child process running this case ended with status %s" % r["child"]))
+            what = "%s [%s/%s]: the interpreter running %s on %s (%d bytes, %s) ended with status %s (%s); Python frames at the " \
+                   "fatal signal: %s" % (WHAT.get(key, "the interpreter did not survive"), key[0], key[1], c["ops"], m["name"], m["len"],
+                                         c["mode"], r["child"], json.dumps(r.get("detail", {}).get("stderr", ""))[:120], sites[:3])
+            if key in WHAT:
+                if key not in first:
+                    first[key] = (c, m, what, "child")
+            else:
+                unknown_retry.append((c, m, key, what))
             continue
         opened = bool(r["ops"]) and r["ops"][0][0] == "open" and (r["ops"][0][1] != "exc" or r["ops"][0][2] != "Bad7zFile")
         rep.count((c["a"], tuple(c["ops"])), nontrivial=opened)
@@ -1577,19 +1670,31 @@ def replay(d):
         finally:
             shutil.rmtree(tmp, ignore_errors=True)
     if r.get("kind") == "measure":
-        rows = []
-        for row in r["rows"]:
-            rows.append(row)
-        print("re-measure with: tools/verif.py check C05; rows recorded:", json.dumps(rows))
         import vlib
         rep = vlib.Report("C05", "quick", 0)
         rep.known = []
-        table, verdicts = measure_blowups(rep, "quick")
-        print(json.dumps(verdicts.get(r["what"])))
-        measure({}, rep, "quick") if False else None
-        v = verdicts.get(r["what"])
-        if isinstance(v, str):
-            return 1
-        return 1 if (v["rss_bytes_per_declared_item"] > 50 or (v["exponent_of_time_in_count"] or 0) > 1.5 or v["cpu_last_s"] > 1.0) else 0
+        measure({}, rep, "quick")
+        hit = [v for v in rep.violations if v["match_keys"].get("via") == r["what"]]
+        print(json.dumps(rep.extra.get("measurement_verdicts", {}).get(r["what"])))
+        return 1 if hit else 0
+    if r.get("kind") == "costpart":
+        o = run_sandboxed("harness.c05:child_cost_impl", {"part": r["part"], "cases": r["cases"]}, timeout=60, mem_mb=1500)
+        print(json.dumps(o)[:600])
+        return 0 if o["status"] == "ok" else 1
+    if r.get("part") in ("toy_worker", "toy_header_loop"):
+        import vlib
+        m = vlib.Model()
+        try:
+            a = r["args"]
+            if r["part"] == "toy_worker":
+                mm = model_res_bytes(m.call("toy_worker", a + [[]]))
+                ii = impl_toy_worker(*a)
+            else:
+                mm = model_res_bytes(m.call("toy_header_loop", a + [[]]))
+                ii = impl_toy_header_loop(*a)
+        finally:
+            m.close()
+        print("model", mm, "implementation", ii)
+        return 0 if same_loop_result(mm, ii) else 1
     print(json.dumps(r)[:1500])
     return 2
